@@ -502,6 +502,9 @@ def _leaf_defs(ctx, f, expr, depth=0):
     return out
 
 
+_net_after = pat.net_after
+
+
 def _param_pos_sorted(ctx, f, pname, coord_text):
     """Every caller passing `pname` computes it by bisect_left over the
     fiber's own coordinates for the coordinate it inserts."""
@@ -540,23 +543,23 @@ def _param_pos_sorted(ctx, f, pname, coord_text):
         # the search is relative to the carried position (coords[pos:]): it is
         # only the sorted position while pos never overtakes the elements --
         # every deletion from the coordinate list must take the position back
-        from ..cfg import parent_block
         for d in caller.own_nodes():
             if isinstance(d, ast.Delete) and any(
                     isinstance(t, ast.Subscript) and
                     text(t.value).replace(" ", "") == "%s.coords" % recv
                     for t in d.targets):
-                blk = parent_block(d)[0]
-                back = [x for x in blk if isinstance(x, ast.AugAssign)
-                        and isinstance(x.op, ast.Sub) and text(x.target) == a.id
-                        and text(x.value) == "1"]
-                if len(back) != 1:
+                net = _net_after(d, a.id)
+                if net is not None and net != {0}:
                     return False, (
                         "caller %s deletes an element of %s.coords but does not "
-                        "take the carried position `%s` back by one in the same "
-                        "(unconditional) step: the next relative bisect search "
-                        "starts beyond the sorted position and the following "
-                        "insertion lands out of order" % (caller.key, recv, a.id))
+                        "take the carried position `%s` back by one on the way to "
+                        "the next round (net change after the deletion: %s, must be "
+                        "0 where a kept element gives +1): the next relative bisect "
+                        "search starts beyond the sorted position and the following "
+                        "insertion lands out of order"
+                        % (caller.key, recv, a.id,
+                           "/".join("%+d" % x if isinstance(x, int) else str(x)
+                                    for x in sorted(net, key=str))))
     if checked == 0:
         return True, "no caller passes an explicit position"
     return True, "callers compute the position by bisect_left"
@@ -783,45 +786,67 @@ def _r4_linear_search(ctx, f, m, need_equal_test, op):
                    f.name))
 
 
+def _precedes(a, b):
+    """Statement `a` (or the block holding it) finishes before statement `b`
+    starts: some enclosing statement of `a` is an earlier sibling of an
+    enclosing statement (or `b` itself) of `b`."""
+    chain_b = []
+    n = b
+    while n is not None and not isinstance(n, (ast.FunctionDef, ast.AsyncFunctionDef)):
+        if isinstance(n, ast.stmt):
+            chain_b.append(n)
+        n = getattr(n, "_parent", None)
+    n = a
+    while n is not None and not isinstance(n, (ast.FunctionDef, ast.AsyncFunctionDef)):
+        if isinstance(n, ast.stmt):
+            pa = parent_block(n)
+            for nb in chain_b:
+                pb = parent_block(nb)
+                if pa is not None and pb is not None and pa[0] is pb[0] and pa[1] < pb[1]:
+                    return True
+        n = getattr(n, "_parent", None)
+    return False
+
+
 def _mono_guard(ctx, f, m, first_new):
-    """`if X._ordered: assert X.maxCoord() is None or X.maxCoord() < <new>`
-    precedes the write in the same block."""
+    """Some assertion that ends before the write fails exactly when
+    `X._ordered and X.maxCoord() is not None and not X.maxCoord() < <new>`:
+    the failing condition (guards of the assert and its negated test, in
+    disjunctive normal form over canonical atoms) is that one clause,
+    however the three literals are spread over `if` tests and the asserted
+    expression."""
     base = text(m.base)
-    pb = parent_block(m.stmt)
-    if pb is None:
-        return False, "write is not in a block"
-    blk, idx = pb[0], pb[1]
-    for prev in blk[:idx]:
-        if isinstance(prev, ast.If) and \
-                text(prev.test).replace(" ", "") in ("%s._ordered" % base,
-                                                     "%s.isOrdered()" % base):
-            for st in prev.body:
-                test = st.test if isinstance(st, ast.Assert) else None
-                raw = False
-                if test is None and isinstance(st, ast.Expr):
-                    # the assert may live in a one-assert checking method
-                    test = pat.checker_call(ctx, f, st.value)
-                    raw = True
-                if test is not None:
-                    ds = pat.disjuncts(test)
-                    have_none = False
-                    have_lt = False
-                    for d in ds:
-                        p = pat.cmp_raw(d) if raw else pat.cmp_parts(ctx, f, d)
-                        if p is None:
-                            continue
-                        mc = "%s.maxCoord()" % base
-                        if p[0] == "is" and p[1] == mc and p[2] == "None":
-                            have_none = True
-                        if p[0] == "<" and p[1] == mc and \
-                                p[2].replace(" ", "") == first_new.replace(" ", ""):
-                            have_lt = True
-                    if have_none and have_lt and len(ds) == 2:
-                        return True, text(test)
-                    return False, ("the monotonicity assert is `%s`, not "
-                                   "`maxCoord() is None or maxCoord() < %s`"
-                                   % (text(test), first_new))
-    return False, "no `if %s._ordered: assert ...` guard before the write" % base
+    mc = "%s.maxCoord()" % base
+    new = first_new.replace(" ", "")
+    wants = [frozenset([("truth", o, True), pat.A("is not", mc, "None"),
+                        pat.A("<=", new, mc)])
+             for o in ("%s._ordered" % base, "%s.isOrdered()" % base)]
+    seen = []
+    # what is known at the write anyway (conditions shared by every way of
+    # reaching it) is not something the assertion has to establish
+    gw = pat.guard_dnf(ctx, f, m.stmt, asserts=False, inline_=True) or [frozenset()]
+    common = frozenset.intersection(*gw) if gw else frozenset()
+    for st in f.own_nodes():
+        test = st.test if isinstance(st, ast.Assert) else None
+        if test is None and isinstance(st, ast.Expr):
+            # the assert may live in a one-assert checking method
+            test = pat.checker_call(ctx, f, st.value)
+        if test is None or not _precedes(st, m.stmt):
+            continue
+        g = pat.guard_dnf(ctx, f, st, asserts=False, inline_=True)
+        neg = pat.cdnf(ctx, f, test, False, inline_=True)
+        if g is None or neg is None:
+            continue
+        fail = {(a | b) - common for a in g for b in neg}
+        if len(fail) == 1 and next(iter(fail)) in [w - common for w in wants]:
+            return True, text(test)
+        if any(mc in x for c in fail for a in c for x in a[1:] if isinstance(x, str)):
+            seen.append(text(test))
+    if seen:
+        return False, ("the monotonicity assert is `%s`, which does not fail exactly "
+                       "when the fiber is ordered, has a maximum and that maximum "
+                       "is not below %s" % (seen[0], first_new))
+    return False, "no assertion `%s._ordered implies maxCoord() is None or maxCoord() < %s` before the write" % (base, first_new)
 
 
 def _r4_append(ctx, f, m):
